@@ -445,7 +445,7 @@ func TestVerif_C17_Semaphore(t *testing.T) {
 	defer r.Finish()
 	r.Rule("scripts over a real sem.Semaphore: 64 workers Acquire / AcquireWithContext (contexts cancelled while queued in half of the scripts) / hold / Release while a controller runs a SetMaxCount script (same ten kinds as the listener part: steady, grow, shrink below usage, shrink-then-grow back-to-back, sequential shrink-grow, repeated identical, grow-then-shrink b2b, shrink-shrink b2b, sequential and random mixes; completion observed on the done channel); oracle: holders <= capacity in force at every acquire; exact free-capacity audit (Weighted.TryAcquire) at the final quiescent point; distinct = (kind, cap0, #steps, max holders, final cap, cancels)")
 	r.Assume("capacities >= 1; capacity in force while changes are outstanding = max of the capacities involved")
-	n := r.N(300, 8000)
+	n := r.N(900, 30000)
 	for i := 0; i < n; i++ {
 		if !r.Mine(i) {
 			continue
